@@ -119,7 +119,10 @@ def handleRunLoop (inp impl : Json) : Verdict :=
   let ownErr (n : String) : Bool := (tamperOf n).startsWith "err:"
   let tampered (n : String) : Bool :=
     tamperOf n != "" && !ownErr n && (n.splitOn "(grpc server impl)").length == 1
-  let fb (n : String) : Bool := tampered n && answered.contains n && !blind.contains n
+  -- requests the client finished (with a request trailer) only after it had reported a matching
+  -- result: the reference server complains while it is shutting down
+  let late := strList (field impl "late")
+  let fb (n : String) : Bool := (tampered n && answered.contains n && !blind.contains n) || late.contains n
   let markOfName (n : String) : Mark := ((codeOf n)[1]?.bind parseMark).getD .unmarked
   let right (n : String) : Bool := (codeOf n)[0]? == some 'r'
   -- the assignment, by the property's words: a selected case ran iff the client answered it
@@ -191,7 +194,7 @@ def handleRunLoop (inp impl : Json) : Verdict :=
   { agree := agree, holds := why.isEmpty, nontrivial := true,
     model := Json.mkObj [("ok", mOk), ("passed", mTot.passed), ("expected", mTot.expected), ("failedOrNotRun", mTot.failed + mTot.notRun)],
     why := why,
-    cls := (if names.any fb then "peer-feedback:" else "") ++ (if names.any ownErr then "client-error-message:" else "") ++ (if tnames.isEmpty then "" else "odd-names:") ++
+    cls := (if !late.isEmpty then "feedback-during-shutdown:" else "") ++ (if names.any fb then "peer-feedback:" else "") ++ (if names.any ownErr then "client-error-message:" else "") ++ (if tnames.isEmpty then "" else "odd-names:") ++
       stop ++ (if want then ":all-answered" else ":not-all") ++ (if iOk then ":success" else ":failure") }
 
 /-! ### op "inrun": one whole run in one process (real client runner on an in-process scripted client,
@@ -217,6 +220,13 @@ def handleInRun (inp impl : Json) : Verdict :=
   let (read, answers, clean) := inScript (strList (field inp "client"))
   let name (i : Nat) : String := "Suite/in/case" ++ toString i
   let ansOf (i : Nat) : Option String := (answers.find? (fun a => a.1 == i)).map (·.2)
+  -- feedback lines the (reference) server printed about case i, in whatever phase of its life
+  let isRef := bool (field inp "isRef")
+  let srvFb : List (String × Nat) := (strList (field inp "srvFb")).filterMap fun l =>
+    match l.splitOn " " with
+    | [ph, ci, _] => ci.toNat?.map (fun c => (ph, c))
+    | _ => none
+  let fbOf (i : Nat) : Bool := isRef && srvFb.any (fun e => e.2 == i)
   -- the assignment, by the property's words: a selected case ran iff the client answered it
   let cases : List Case := (List.range n).map fun i =>
     { name := name i
@@ -225,7 +235,7 @@ def handleInRun (inp impl : Json) : Verdict :=
         | some "mismatch" => .assertFail
         | some _ => .clientErr
         | none => .noResult
-      mark := marks.getD i .unmarked, feedback := false }
+      mark := marks.getD i .unmarked, feedback := fbOf i }
   let want := specOk cases 0
   let iOk := bool (field impl "ok")
   let iTot : Totals := { passed := nat (field impl "passed"), failed := nat (field impl "failed"),
@@ -250,7 +260,10 @@ def handleInRun (inp impl : Json) : Verdict :=
         | some _ => .answer .error true          -- "error" / "error:<message key>"
         | none => if i < read then .answer .noresult true else .refuse
       isRef := bool (field inp "isRef"), useTLS := false, startErr := false, writeErr := false, closeErr := false
-      resp := .ok, dies := none, names := (List.range n).map (fun i => (name i).toList), stderr := [] }
+      resp := .ok, dies := none, names := (List.range n).map (fun i => (name i).toList)
+      -- everything the server printed until it ENDED, in the order of its life: early lines first
+      stderr := (((srvFb.filter (fun e => e.1 == "early")) ++ (srvFb.filter (fun e => e.1 != "early"))).map fun e =>
+        FeedbackLine.prefixLine (name e.2).toList "late or early, feedback is feedback".toList).flatten }
   let world : List RunLoop.Client := [{ startErr := false, batches := [{ s := script, noticed := false }], waitErr := !clean }]
   let mOk := RunLoop.Run mk world
   let mTot : Totals := match RunLoop.runReport mk world with
@@ -280,7 +293,8 @@ def handleInRun (inp impl : Json) : Verdict :=
   { agree := agree, holds := why.isEmpty, nontrivial := true,
     model := Json.mkObj [("ok", mOk), ("passed", mTot.passed), ("expected", mTot.expected), ("failedOrNotRun", mTot.failed + mTot.notRun)],
     why := why,
-    cls := (if clean then "clean-end" else "unclean-end") ++ (if pendingAtEnd then ":unanswered-pending" else "") ++
+    cls := (if srvFb.any (fun e => e.1 == "shutdown") then "feedback-during-shutdown:" else if !srvFb.isEmpty then "feedback-early:" else "") ++
+      (if clean then "clean-end" else "unclean-end") ++ (if pendingAtEnd then ":unanswered-pending" else "") ++
       (if want then ":all-answered" else ":not-all") ++ (if iOk then ":success" else ":failure") }
 
 /-! ### op "cliargs": the command line's own decisions; the model is `ConfModel.Cli.run`, followed by
